@@ -12,7 +12,18 @@ from pathlib import Path
 from harness.common import PY, REPO, VERIF
 from harness.props import c11_pool
 
-HARD_WALL_LIMIT = 150.0     # seconds one case may take before the worker is killed (hang)
+HARD_WALL_LIMIT = 150.0     # CPU seconds one case may take before the worker is killed (hang) ...
+ABS_WALL_LIMIT = 1500.0     # ... or this many wall-clock seconds (a process that sleeps / blocks forever uses no CPU)
+
+
+def _cpu_seconds(pid: int) -> float:
+    """user+system CPU time of a process from /proc (robust against a loaded machine, unlike wall-clock time)"""
+    try:
+        with open(f"/proc/{pid}/stat", encoding="ascii", errors="replace") as fh:
+            parts = fh.read().rsplit(")", 1)[1].split()
+        return (int(parts[11]) + int(parts[12])) / os.sysconf("SC_CLK_TCK")
+    except (OSError, IndexError, ValueError):
+        return 0.0
 
 
 def _env():
@@ -60,6 +71,7 @@ class _Worker:
                     if "start" in rec:
                         self.current = rec["start"]
                         self.case_started = time.time()
+                        self.case_cpu0 = _cpu_seconds(self.proc.pid)
                     elif "baseline" in rec:
                         self.done["baseline:" + rec["baseline"]] = rec
                         self.current = None
@@ -69,10 +81,11 @@ class _Worker:
                         self.current = None
         rc = self.proc.poll()
         if rc is None:
-            if self.current and time.time() - self.case_started > HARD_WALL_LIMIT:
+            used = _cpu_seconds(self.proc.pid) - getattr(self, "case_cpu0", 0.0)
+            if self.current and (used > HARD_WALL_LIMIT or time.time() - self.case_started > ABS_WALL_LIMIT):
                 self.proc.kill()
                 self.proc.wait()
-                self._abort({"hang": True, "wall": round(time.time() - self.case_started, 1)})
+                self._abort({"hang": True, "wall": round(time.time() - self.case_started, 1), "cpu_used": round(used, 1)})
             return True
         if rc == 0 and not self.todo:
             return False
